@@ -7,7 +7,9 @@
 (* string "path/n": project path (major suffix included: "p" and "p@v2"    *)
 (* are different projects) and version number n.  n < 100 stands for the   *)
 (* tag v?.n.0.  n >= 100 = 100*minor + 10*patch + k stands for the tag      *)
-(* v?.minor.patch when k = 0 and, when k = 5, for the untagged revision     *)
+(* v?.minor.patch when k = 0, for the pre-release tag -rc.(k-6) of the NEXT  *)
+(* tag (the one numbered (n div 10 + 1) * 10) when k is 7, 8 or 9, and,     *)
+(* when k = 5, for the untagged revision                                    *)
 (* that follows that tag (its pseudo-version v?.minor.(patch+1)-0.time-rev  *)
 (* sorts between the tag and the next one, as the numbers do).              *)
 (* DOMAIN req = every version that exists, tagged or not; only tagged      *)
@@ -42,9 +44,10 @@ MaxVer(S, p) == LET vs == { VerOf(x) : x \in { y \in S : PathOf(y) = p } } IN CH
 BuildList(u, roots) == LET R == Reach(u, roots) IN [p \in Paths(R) |-> MaxVer(R, p)]
 
 \* tagged versions of a path
-Tagged(n) == n < 100 \/ n % 10 = 0
-\* versions with the same major.minor
-Group(n) == IF n < 100 THEN n ELSE n \div 100
+Tagged(n) == n < 100 \/ n % 10 \in {0, 7, 8, 9}
+Release(n) == n < 100 \/ n % 10 = 0
+\* versions with the same major.minor (a pre-release belongs to the tag it precedes)
+Group(n) == IF n < 100 THEN n ELSE IF n % 10 \in {7, 8, 9} THEN ((n \div 10 + 1) * 10) \div 100 ELSE n \div 100
 Tags(u, p) == { v \in { VerOf(x) : x \in { y \in DOMAIN u.req : PathOf(y) = p } } : Tagged(v) }
 MaxOf(S) == CHOOSE v \in S : \A w \in S : w <= v
 
@@ -52,16 +55,20 @@ MaxOf(S) == CHOOSE v \in S : \A w \in S : w <= v
 \* the build list (0 if absent)
 Resolve(u, p, q, cur) ==
     LET T == Tags(u, p)
-        pick(S) == IF S = {} THEN [ok |-> FALSE] ELSE [ok |-> TRUE, v |-> MaxOf(S)] IN
-    CASE q.kind = "latest"  -> pick(T)
+        pick(S) == IF S = {} THEN [ok |-> FALSE] ELSE [ok |-> TRUE, v |-> MaxOf(S)]
+        \* the latest release, or the latest pre-release of a project that has no release yet
+        latest == IF { t \in T : Release(t) } # {} THEN { t \in T : Release(t) } ELSE T
+    IN
+    CASE q.kind = "latest"  -> pick(latest)
       [] q.kind = "exact"   -> pick({ t \in T : t = q.n })
       [] q.kind = "lt"      -> pick({ t \in T : t < q.n })
       [] q.kind = "le"      -> pick({ t \in T : t <= q.n })
       [] q.kind = "gt"      -> pick({ t \in T : t > q.n })
       [] q.kind = "ge"      -> pick({ t \in T : t >= q.n })
-      [] q.kind = "upgrade" -> pick(T \cup (IF cur > 0 THEN {cur} ELSE {}))
+      [] q.kind = "upgrade" -> IF latest = {} THEN pick(IF cur > 0 THEN {cur} ELSE {})
+                               ELSE pick({MaxOf(latest)} \cup (IF cur > 0 THEN {cur} ELSE {}))
       \* the latest tagged patch release of the selected major.minor, never below the selection
-      [] q.kind = "patch"   -> IF cur > 0 THEN pick({ t \in T : Group(t) = Group(cur) /\ t > cur } \cup {cur}) ELSE pick(T)
+      [] q.kind = "patch"   -> IF cur > 0 THEN pick({ t \in T : Group(t) = Group(cur) /\ t > cur } \cup {cur}) ELSE pick(latest)
       \* a branch or revision: the tag on that revision, or the revision's pseudo-version
       [] q.kind = "ref"     -> IF Node(p, q.n) \in DOMAIN u.req THEN [ok |-> TRUE, v |-> q.n] ELSE [ok |-> FALSE]
       [] OTHER -> [ok |-> FALSE]
